@@ -215,8 +215,10 @@ AddRejectPathNotLast(tp, c) == AddRoute(tp, c) /\ last'.out \in {"pathNotLast", 
 
 FinderTree == IF finder.lazy THEN tree ELSE finder.t      \* the tree the next lookup is answered from
 
+Compile == finder' = [lazy |-> FALSE, t |-> FinderTree]   \* the first lookup generates the program
+
 Find(p) ==
-    /\ finder' = [lazy |-> FALSE, t |-> FinderTree]       \* the first lookup generates the program
+    /\ Compile
     /\ LET x == Lookup(FinderTree, p) IN
          last' = Rec("find", <<>>, 0, FALSE, p, IF x.found THEN "hit" ELSE "miss", x)
     /\ UNCHANGED <<accepted, tree, nadds>>
